@@ -181,12 +181,42 @@ class Emit:
             out += self.stmt_expr(e["expr"], env, depth, owner)
         return canon_into(out)
 
+    def join_value(self, a, env):
+        """`sink.push_str(&src.map(f).collect::<Vec<_>>().join(sep))` writes the items of src rendered by f with sep between them: the same
+        ("join", ..) op as `for (i, x) in src.enumerate() { if i != 0 { sink.push_str(sep) } sink.push_str(&f(x)) }`; else None"""
+        a = strip(hir.through_lets(a, self.lets))
+        while a.get("k") in ("AddrOf", "Deref") or (a.get("k") == "Unary" and a.get("op") in ("*", "Deref")) \
+                or (a.get("k") == "MethodCall" and a["method"] in ("as_str", "as_ref", "deref", "borrow") and not a["args"]):
+            a = strip(a["e"] if "e" in a else a["recv"])
+        if not (a.get("k") == "MethodCall" and a["method"] == "join" and len(a["args"]) == 1):
+            return None
+        r = strip(a["recv"])
+        if not (r.get("k") == "MethodCall" and r["method"] == "collect" and not r["args"]):
+            return None
+        r = strip(r["recv"])
+        item = "item"
+        if r.get("k") == "MethodCall" and r["method"] == "map" and len(r["args"]) == 1:
+            fn_ = strip(r["args"][0])
+            if fn_.get("k") == "Closure" and len(fn_.get("params", [])) == 1 and fn_["params"][0].get("k") == "Binding":
+                env2 = dict(env)
+                env2[fn_["params"][0]["name"]] = "item"
+                item = label(fn_["body"], env2)
+            elif fn_.get("k") == "Path" and fn_.get("path", {}).get("res") == "def":
+                item = "%s(item)" % (fn_["path"].get("def") or fn_["path"].get("text") or "?").rsplit("::", 1)[-1]
+            else:
+                return None
+            r = strip(r["recv"])
+        return ("join", "enumerate(%s)" % label(r, env), [label(a["args"][0], env)], item)
+
     def stmt_expr(self, x, env, depth, owner):
         x = strip(x)
         k = x["k"]
         if k == "Block":
             return self.block(x, env, depth, owner)
         if k == "MethodCall" and x["method"] == "push_str" and self.is_sink(x["recv"], env):
+            j = self.join_value(x["args"][0], env)
+            if j is not None:
+                return [j]
             return [label(x["args"][0], env)]
         if k == "MethodCall" and x["method"] == "push" and self.is_sink(x["recv"], env):
             return [label(x["args"][0], env)]
@@ -259,7 +289,10 @@ class Emit:
                 by_variant = hir.arms_by_variant(x)
             except Unrecognised:
                 # patterns that are not plain variants (tuples, literals, ranges): the arms in source order, keyed by position
-                return [("match", label(x["scrut"], env), {"arm%d" % i: self.block(a["body"], dict(env), depth, owner) for i, a in enumerate(x["arms"])})]
+                pos_arms = {"arm%d" % i: self.block(a["body"], dict(env), depth, owner) for i, a in enumerate(x["arms"])}
+                if not any(pos_arms.values()):
+                    return []          # a match that writes nothing in any arm is not part of the emission
+                return [("match", label(x["scrut"], env), pos_arms)]
             for v, arm, pat in by_variant:
                 env2 = dict(env)
                 if pat["k"] == "Struct":
@@ -276,6 +309,8 @@ class Emit:
                         if q["k"] == "Binding":
                             env2[q["name"]] = "field%d" % i
                 arms[v] = self.block(arm["body"], env2, depth, owner)
+            if not any(arms.values()):
+                return []          # a match that writes nothing in any arm is not part of the emission
             return [("match", label(x["scrut"], env), arms)]
         if k in ("Call", "MethodCall"):
             nm = callee_name(x)
